@@ -228,7 +228,9 @@ add('LdrRegisterThumbT2', {'m': 'f3_0', 't': 'f15_12', 'n': 'f19_16', 'shift_t':
 add('StrRegisterT2 StrbRegisterT2 StrhRegisterT2 LdrbRegisterT2 LdrhRegisterT2 LdrsbRegisterT2 LdrshRegisterT2',
     {'add': '1', 'wback': '0', 'index': '1', 'm': 'f3_0', 't': 'f15_12', 'n': 'f19_16', 'shift_t': str(SR_LSL), 'shift_n': 'f5_4'}, [T_RN, RD, T_RM])
 add('LdrLiteralT2 LdrbLiteralT1 LdrhLiteralT1 LdrsbLiteralT1 LdrshLiteralT1', {'add': 'b23', 'imm32': 'f11_0', 't': 'f15_12'}, [RD])
-add('LdmThumbT2 LdmdbT1 StmT2 StmdbT1', {'wback': 'b21', 'registers': 'f15_0', 'n': 'f19_16', '_pre': 'reglist_t'}, [T_RN])
+# registers = P:M:'0':register_list (loads) / '0':M:'0':register_list (stores): bits 13 (and 15 for stores) of the word are (0)
+add('LdmThumbT2 LdmdbT1', {'wback': 'b21', 'registers': '(bits W 15 14 * 2 ^ 14 + bits W 12 0)', 'n': 'f19_16', '_pre': 'reglist_lt'}, [T_RN])
+add('StmT2 StmdbT1', {'wback': 'b21', 'registers': '(bit W 14 * 2 ^ 14 + bits W 12 0)', 'n': 'f19_16', '_pre': 'reglist_st'}, [T_RN])
 add('TbbTbhT1', {'is_tbh': 'b4', 'm': 'f3_0', 'n': 'f19_16', '_noit': True}, [T_RN, T_RM])
 add('LdrexT1', {'imm32': '(bits W 7 0 * 4)', 't': 'f15_12', 'n': 'f19_16'}, [T_RN, RD])
 add('StrexT1', {'imm32': '(bits W 7 0 * 4)', 't': 'f15_12', 'd': 'f11_8', 'n': 'f19_16'}, [T_RN, RD, T_RD])
@@ -265,7 +267,7 @@ add('PopThumbT2', {'registers': '(bits W 15 14 * 2 ^ 14 + bits W 12 0)', 'unalig
 add('PushT3 PushA2 PopThumbT3 PopArmA2', {'registers': '(2 ^ bits W 15 12)', 'unaligned_allowed': '1', '_noit': True}, [RD])
 add('PushA1', {'registers': 'f15_0', 'unaligned_allowed': '0', '_pre': 'list16_2'}, [])
 add('PopArmA1', {'registers': 'f15_0', 'unaligned_allowed': '0', '_pre': 'list16_2', '_zero': [13]}, [])
-add('LdmThumbT1', {'wback': '(if bit W (bits W 10 8) =? 0 then 1 else 0)', 'registers': 'f7_0', 'n': 'f10_8', '_pre': 'list8_nz'}, [], 16)
+add('LdmThumbT1', {'wback': '(if bit (bits W 7 0) (bits W 10 8) =? 0 then 1 else 0)', 'registers': 'f7_0', 'n': 'f10_8', '_pre': 'list8_nz'}, [], 16)
 add('StmT1', {'wback': '1', 'registers': 'f7_0', 'n': 'f10_8', '_pre': 'list8_nz'}, [], 16)
 
 # ------------------------------------------------------------------ unprivileged loads and stores (A8.8.64, 92, 219 ...)
